@@ -44,7 +44,9 @@ LEVEL_TEXT = ("Proved in Lean, full strength, every task table and expression: s
               "scheduler evaluate it and subrun.then unwrap it), subrun_value / subrun_error / subrun_nested; on the lookup model: "
               "no_single_unless_allowed, subrun_never_single (no scope / validity option / backend content makes check_cache answer "
               "SINGLE for _subrun_root_task), subrun_full_check_runs_again, subrun_shallow_replays_ultimate.")
-LEVEL_NOTE = ("PARTIAL: 'the sub-execution's jobs are recorded under the calling job' is not a Lean theorem (the big-step model has no job "
+LEVEL_NOTE = ("An inner failure makes the _subrun_root_task job fail in both modes (the model mirrors the repair of the C12 finding "
+              "C12-failure-under-extended-subrun-replayed-from-cache; the caller-visible outcome is the same before and after). "
+              "PARTIAL: 'the sub-execution's jobs are recorded under the calling job' is not a Lean theorem (the big-step model has no job "
               "tree); it is checked on the real code only, by reading the Job / Execution rows back. Starting a second Scheduler, "
               "config forwarding, module loading, pickling of the expression for a new execution and the process executor are runtime "
               "behaviour outside the model; cache=False and dryrun flags are forwarded as data.")
